@@ -162,6 +162,8 @@ tree_api!(T32i64u64, AVLTreeMut, AVLTree, 4, 24, u32, i64, u64);
 tree_api!(T32logu8, AVLTreeMut, AVLTree, 4, 24, u32, LogKey, u8);
 tree_api!(T32a32u64, AVLTreeMut, AVLTree, 4, 24, u32, A32, u64);
 tree_api!(T32u128u64, AVLTreeMut, AVLTree, 4, 24, u32, u128, u64);
+tree_api!(T32u32bps, AVLTreeMut, AVLTree, 4, 24, u32, u32, Bps);
+tree_api!(T8u8bps, U8AVLTreeMut, U8AVLTree, 1, 8, u8, u8, Bps);
 tree_api!(T8u128u8, U8AVLTreeMut, U8AVLTree, 1, 8, u8, u128, u8);
 tree_api!(T8a32a32, U8AVLTreeMut, U8AVLTree, 1, 8, u8, A32, A32);
 
